@@ -714,7 +714,20 @@ class MementoFunctionHashRule(HashRule):
         # pointing to a memento function is now pointing to something else, or even undefined
         # so detect if that happened, else return `False`.
         new_fn = self.resolver()
-        return not isinstance(new_fn, MementoFunctionType)
+        if not isinstance(new_fn, MementoFunctionType):
+            return True
+        # The symbol may also have been re-bound to a newer definition of the function after
+        # this rule was collected (e.g. while a function that refers to itself was being
+        # re-defined, its own name still pointed at the previous definition).
+        def hashed_as(fn):
+            return (getattr(fn, "explicit_version", None), fn.code_hash)
+
+        return (
+            new_fn is not self.memento_fn
+            and new_fn.qualified_name_without_version
+            == self.memento_fn.qualified_name_without_version
+            and hashed_as(new_fn) != hashed_as(self.memento_fn)
+        )
 
     def __repr__(self):
         return f"MementoFunctionHashRule(key={repr(self.key)})"
